@@ -855,6 +855,11 @@ func runUDP(toks []string) (string, error) {
 	}
 	utail := toks[i]
 	i++
+	uwfail := -1
+	if i < len(toks) && strings.HasPrefix(toks[i], "wf") {
+		uwfail, _ = strconv.Atoi(toks[i][2:])
+		i++
+	}
 	k, err := num()
 	if err != nil {
 		return "", err
@@ -958,6 +963,9 @@ func runUDP(toks []string) (string, error) {
 		tchunks = append(tchunks, rest)
 	}
 
+	if toks[0] == "udpr" {
+		return execUDPR(tchunks, ttail), nil
+	}
 	if toks[0] == "udpv" {
 		return execUDPV(dgs, tchunks, ttail, sc), nil
 	}
@@ -965,7 +973,7 @@ func runUDP(toks []string) (string, error) {
 	var obs string
 	for attempt := 0; attempt < 5; attempt++ {
 		var tainted bool
-		obs, tainted = execUDP(evs, dgs, utail, tchunks, ttail, tfused, sc)
+		obs, tainted = execUDP(evs, dgs, utail, uwfail, tchunks, ttail, tfused, sc)
 		// the real 20 ms ticker fired outside the windows of the schedule before a scheduled slow write:
 		// the run did not execute the schedule of the case; run it again
 		if !(tainted && hasHold) {
@@ -981,8 +989,8 @@ const (
 	udpReadBuf   = 65536
 )
 
-func execUDP(evs []uev, dgs [][]byte, utail string, tchunks [][]byte, ttail string, tfused bool, sc string) (string, bool) {
-	U := newConn("U", dgs, utail, false, -1, false, true)
+func execUDP(evs []uev, dgs [][]byte, utail string, uwfail int, tchunks [][]byte, ttail string, tfused bool, sc string) (string, bool) {
+	U := newConn("U", dgs, utail, false, uwfail, false, true)
 	T := newConn("T", tchunks, ttail, tfused, -1, false, false)
 	T.setWatch(true)
 	var returned atomic.Bool
@@ -1201,7 +1209,7 @@ func execUDP(evs []uev, dgs [][]byte, utail string, tchunks [][]byte, ttail stri
 		for _, d := range U.dgrams {
 			sb.WriteString(" " + vc.Hex(d))
 		}
-		fmt.Fprintf(&sb, " nread %d serr %s rerr %s sent %d recv %d", U.nreadDg, b01(r.SendError != nil), b01(r.ReceiveError != nil),
+		fmt.Fprintf(&sb, " nread %d wfu %s serr %s rerr %s sent %d recv %d", U.nreadDg, b01(U.wfEnv), b01(r.SendError != nil), b01(r.ReceiveError != nil),
 			r.BytesSent, r.BytesReceived)
 		return sb.String(), T.isTainted()
 	case <-time.After(watchdog):
@@ -1359,7 +1367,7 @@ func execUDPV(dgs [][]byte, tchunks [][]byte, ttail string, sc string) string {
 		for _, d := range sock.sent {
 			sb.WriteString(" " + vc.Hex(d))
 		}
-		fmt.Fprintf(&sb, " nread %d serr %s rerr %s sent %d recv %d", len(dgs), b01(r.SendError != nil), b01(r.ReceiveError != nil),
+		fmt.Fprintf(&sb, " nread %d wfu 0 serr %s rerr %s sent %d recv %d", len(dgs), b01(r.SendError != nil), b01(r.ReceiveError != nil),
 			r.BytesSent, r.BytesReceived)
 		return sb.String()
 	case <-time.After(watchdog):
@@ -1367,6 +1375,57 @@ func execUDPV(dgs [][]byte, tchunks [][]byte, ttail string, sc string) string {
 		s.stall()
 		sock.free.Store(true)
 		return fmt.Sprintf("timeout stalls %d udp %d", s.stalls, len(sock.sent))
+	}
+}
+
+// ---------------------------------------------------------------- UDP relay with a real *net.UDPConn (sendmmsg batch writer)
+
+// execUDPR: udpr U hold 0 T <tail> 0 tds … : the local side is a real connected UDP socket on loopback, so iocopy.UDP
+// takes its udpBatchWriter path (ipv4.PacketConn.WriteBatch / sendmmsg, 32 messages per call); the datagrams are
+// collected from the peer socket.
+func execUDPR(tchunks [][]byte, ttail string) string {
+	app, err := net.ListenUDP("udp", &net.UDPAddr{IP: net.IPv4(127, 0, 0, 1)})
+	if err != nil {
+		return "nosocket " + strings.ReplaceAll(err.Error(), " ", "_")
+	}
+	defer app.Close()
+	_ = app.SetReadBuffer(4 << 20)
+	relaySock, err := net.DialUDP("udp", nil, app.LocalAddr().(*net.UDPAddr))
+	if err != nil {
+		return "nosocket " + strings.ReplaceAll(err.Error(), " ", "_")
+	}
+	T := newConn("T", tchunks, ttail, false, -1, false, false)
+	T.free.Store(true)
+	var returned atomic.Bool
+	ch := runRelay(func() *iocopy.Result { return iocopy.UDP(relaySock, T, nil) }, &returned)
+	select {
+	case rr := <-ch:
+		if rr.panic != "" {
+			return rr.panic
+		}
+		r := rr.r
+		var got [][]byte
+		buf := make([]byte, 70000)
+		for {
+			app.SetReadDeadline(time.Now().Add(150 * time.Millisecond))
+			n, _, err := app.ReadFromUDP(buf)
+			if err != nil {
+				break
+			}
+			got = append(got, append([]byte(nil), buf[:n]...))
+		}
+		var sb strings.Builder
+		fmt.Fprintf(&sb, "ret 1 tun %s udp %d", vc.Hex(T.stream), len(got))
+		for _, d := range got {
+			sb.WriteString(" " + vc.Hex(d))
+		}
+		fmt.Fprintf(&sb, " nread 0 wfu 0 serr %s rerr %s sent %d recv %d", b01(r.SendError != nil), b01(r.ReceiveError != nil),
+			r.BytesSent, r.BytesReceived)
+		return sb.String()
+	case <-time.After(watchdog):
+		timeouts.Add(1)
+		relaySock.Close()
+		return "timeout"
 	}
 }
 
@@ -1517,7 +1576,7 @@ func execLine(line string) string {
 	switch toks[0] {
 	case "tcp", "tcpt":
 		obs, err = runTCP(toks, known)
-	case "udp", "udpv":
+	case "udp", "udpv", "udpr":
 		obs, err = runUDP(toks)
 	case "s5":
 		obs, err = runS5(toks)
